@@ -291,18 +291,30 @@ class C09(Prop):
     ALPHA = ["start", "tick 1", "tick 3", "err", "hb", "timeouts", "renew none 1", "renew 1 0", "apo", "term", "rst",
              "adv 900000000"]
 
+    ALPHA2 = ["tick 1", "err", "rst", "use 1", "use 0", "renew none 1", "start"]
+
     def exhaustive(self, tier):
         plan = [(self._cfg(3, 2, True, "1", "none"), 3), (self._cfg(12, 1, False, "none", "4"), 3)]
+        plan2 = [(self._cfg(12, 2, True, "none", "none"), 3)]
         if tier == "thorough":
             plan = [(self._cfg(3, 2, True, "1", "none"), 4), (self._cfg(12, 1, False, "none", "4"), 4),
                     (self._cfg(1, 4, True, "none", "none"), 4), (self._cfg(10, 3, True, "2", "60"), 3)]
+            plan2 = [(self._cfg(12, 2, True, "none", "none"), 5), (self._cfg(4, 4, True, "none", "none"), 4)]
         cases = []
         for cfg, depth in plan:
             for k in range(1, depth + 1):
                 for seq in itertools.product(self.ALPHA, repeat=k):
                     cases.append({"lines": [cfg] + list(seq), "note": f"exhaustive depth {k}"})
+        cases2 = []
+        for cfg, depth in plan2:
+            for k in range(1, depth + 1):
+                for seq in itertools.product(self.ALPHA2, repeat=k):
+                    cases2.append({"lines": [cfg] + list(seq), "note": f"exhaustive two lifecycles depth {k}"})
         return [{"name": "all op sequences over a 12-op alphabet, (configuration, max length) = "
-                         + "; ".join(f"({c[4:]}, {d})" for c, d in plan), "cases": cases}]
+                         + "; ".join(f"({c[4:]}, {d})" for c, d in plan), "cases": cases},
+                {"name": "two lifecycles interleaved with resets, all sequences over a 7-op alphabet (tick/err/rst/renew/start/"
+                         "use 0/use 1), (configuration, max length) = " + "; ".join(f"({c[4:]}, {d})" for c, d in plan2),
+                 "cases": cases2}]
 
     # --- implementation --------------------------------------------------------------------------------------
     def _new(self, t, fresh_clock=True):
